@@ -21,8 +21,21 @@ Definition e_add (l : level) (p : N) (ps : psE) : psE :=
                                    (aput (lower t) (mkT (t_name te) (padd p (t_privs te))) (db_tbls e))) (ps_dbs ps))
   end.
 
-Definition apply_grants (gs : list (level * list N)) : psE :=
-  fold_left (fun ps g => fold_left (fun acc p => e_add (fst g) p acc) (snd g) ps) gs (mkPS [] []).
+(* what the account received, in order: a privilege grant, or a routine grant -- routines are not modelled, but
+   getUseableDb creates the database entry (fixing the spelling the entry keeps) as a side effect *)
+Inductive gitem : Type := GPriv (l : level) (ps : list N) | GTouchDb (d : str).
+
+Definition e_touch (d : str) (ps : psE) : psE :=
+  match aget (lower d) (ps_dbs ps) with
+  | Some _ => ps
+  | None => mkPS (ps_g ps) (aput (lower d) (mkDB d [] []) (ps_dbs ps))
+  end.
+
+Definition apply_grants (gs : list gitem) : psE :=
+  fold_left (fun ps g => match g with
+                         | GPriv l qs => fold_left (fun acc p => e_add l p acc) qs ps
+                         | GTouchDb d => e_touch d ps
+                         end) gs (mkPS [] []).
 
 Definition look (ps : psE) (l : level) (p : N) : bool :=
   match l with LG => e_has_g ps p | LD d => e_has_d ps d p | LT d t => e_has_t ps d t p end.
@@ -44,7 +57,7 @@ Definition look_defs : list (level * N) :=
 
 (* grants of one account in order; (before, after) per lookup of look_defs; role edges of the state (admin before, after): the model
    says the flag survives, so the two must agree *)
-Definition case : Type := (list (level * list N) * list (bool * bool) * list (bool * bool))%type.
+Definition case : Type := (list gitem * list (bool * bool) * list (bool * bool))%type.
 
 Fixpoint cmp (ps ps' : psE) (defs : list (level * N)) (obs : list (bool * bool)) : bool :=
   match defs, obs with
